@@ -1,6 +1,8 @@
 package main
 
-import "golang.org/x/tools/go/ssa"
+import (
+	"golang.org/x/tools/go/ssa"
+)
 
 // srcFuncsIn returns the source-level functions (no synthetic wrappers) of a reach set.
 func srcFuncsIn(r *Reach) []*ssa.Function {
@@ -13,79 +15,176 @@ func srcFuncsIn(r *Reach) []*ssa.Function {
 	return out
 }
 
-func init() {
-	register(&propDef{
-		ID:          "C09",
-		Explanation: "wip",
-		Rule:        "wip",
-		Run: func(c *Ctx, r *Result) {
-			n := runNF(c, c.G, r, "NF", srcFuncsIn(c.REval), c.REval)
-			r.RequireMin("NF accessor sites under Eval", n, 130)
-		},
-	})
+// fnsNamed resolves a list of short names, losing an anchor for each missing one; closures of
+// the named functions are included.
+func (c *Ctx) fnsNamed(r *Result, names ...string) []*ssa.Function {
+	var out []*ssa.Function
+	for _, n := range names {
+		f := c.mustFn(r, n)
+		if f == nil {
+			continue
+		}
+		out = append(out, f)
+		out = append(out, f.AnonFuncs...)
+	}
+	return out
+}
+
+const commonRule = "obligations are enumerated from the type-checked, SSA-lowered current source of /repo (every function, call site, store, loop or table entry the rule applies to); one is non-trivial when its discharge needed more than 'the operand is a constant or a fresh local allocation' (a dataflow fact, a dominating guard, a summary of a callee, a table comparison); distinct = distinct obligation keys (rule + function + construct + ordinal, never a line number)"
+
+var pathMachinery = []string{
+	"jsonata.eval", "jsonata.evalPath", "jsonata.evalPathStep", "jsonata.evalOverArray", "jsonata.evalOverSequence",
+	"jsonata.evalName", "jsonata.evalNameArray", "jsonata.evalWildcard", "jsonata.appendWildcard", "jsonata.flattenArray",
+	"jsonata.evalDescendent", "jsonata.recurseDescendents", "jsonata.walkObjectValues", "jsonata.normalizeArray", "jsonata.lookup",
+	"jsonata.arrayify", "jsonata.makeArray", "jsonata.asSequence",
+}
+
+var predicateMachinery = []string{
+	"jsonata.evalPredicate", "jsonata.applyFilter", "jsonata.arrayify", "jsonata.normalizeArray", "jsonata.evalPath", "jsonata.evalPathStep", "jsonata.evalOverArray",
 }
 
 func init() {
 	register(&propDef{
-		ID: "FINTEST", Explanation: "wip", Rule: "wip",
-		Run: func(c *Ctx, r *Result) {
-			e := newFIN(c, c.G)
-			n := runFINBoxed(c, e, r, "FIN", nil)
-			m := runFINBoxing(c, e, r, "FIN", srcFuncsIn(c.REval))
-			r.Note("boxed returns %d boxing sites %d", n, m)
-		},
-	})
-}
-
-func init() {
-	register(&propDef{
-		ID: "SEQTEST", Explanation: "wip", Rule: "wip",
+		ID: "C01",
+		Explanation: "Decides two structural necessary conditions of the path law over ALL programs and inputs: (SEQ) no evaluator-internal *sequence is ever stored inside a value, handed to a callable/reflect mutator, or returned by eval/Eval/a built-in — a symbolic may-wrap-a-sequence dataflow over every reflect.Value/interface SSA value of the module with the asSequence refinement; (NF) every kind-specific reflect accessor (Len/Index/MapKeys/MapIndex/Field...) in the path machinery is applied to a provably resolved value (jtypes.Resolve / arrayify / MakeSlice results, interprocedural). Breaking either makes a path over arrays nested in arrays return an internal object or panic. NOT decided: order, one-level flattening, singleton collapse, keep-array marker as values.",
+		Rule:        commonRule,
+		Fixtures:    []string{"seq", "nf"},
 		Run: func(c *Ctx, r *Result) {
 			runSEQ(c, c.G, r, "SEQ", c.W.LibSSA["jsonata"], c.Lib, c.REval.Roots)
+			r.RequireMin("SEQ producers (boxing of *sequence)", r.Counts["SEQ producers (boxing of *sequence)"], 5)
+			r.RequireMin("SEQ consumers (asSequence call sites)", r.Counts["SEQ consumers (asSequence call sites)"], 4)
+			n := runNF(c, c.G, r, "NF", c.fnsNamed(r, pathMachinery...), c.REval)
+			r.RequireMin("NF accessor sites in the path machinery", n, 20)
+			r.Assume("values registered with RegisterVars and inputs passed to Eval do not contain *jsonata.sequence (unexported type: impossible from outside the package)")
 		},
 	})
-}
-
-func init() {
 	register(&propDef{
-		ID: "SMALLTEST", Explanation: "wip", Rule: "wip",
+		ID: "C02",
+		Explanation: "Decides the NF discipline in the predicate machinery (evalPredicate, applyFilter, arrayify, normalizeArray and the evalPath->evalPathStep->evalOverArray chain a filter path enters with an array item): every reflect accessor receiver is provably resolved on every path, interprocedurally. This is the clause behind the two panics the property names (x[$$.idx], arr[o] on [[1]]). NOT decided: floor/negative index arithmetic, boolean casting, number-array detection, step-local vs whole-path attachment (value-level).",
+		Rule:        commonRule,
+		Fixtures:    []string{"nf"},
 		Run: func(c *Ctx, r *Result) {
-			runSORT(c, r, "SORT", c.REval, c.Lib)
-			runMERGE(c, r, "MERGE")
-			runHASH(c, r, "HASH", srcFuncsIn(c.REval), c.REval)
-			runCODEC(c, r, "CODEC")
-			runUNIT(c, r, "UNIT")
-			runGUARD(c, r, "GUARD", srcFuncsIn(c.REval), c.REval)
+			n := runNF(c, c.G, r, "NF", c.fnsNamed(r, predicateMachinery...), c.REval)
+			r.RequireMin("NF accessor sites in the predicate machinery", n, 10)
+		},
+	})
+	register(&propDef{
+		ID: "C03",
+		Explanation: "Decides four structural clauses of the operator table: (FIN) every float produced by evalNumericOperator/evalNegation/evalRange passes two-sided math.IsInf and math.IsNaN tests whose true edges leave by an error return before it is boxed into a value (bit-set dataflow {Inf,NaN} with dominance-based guards); (GUARD) evalRange's size test 0<=size<=10,000,000 dominates the allocation and the constant is the property's; (LAZY) in evalConditional Then/Else are evaluated only on the true/false edge of jlib.Boolean(cond) and no path runs both; (TAB) every switch over NumericOperator/ComparisonOperator/BooleanOperator in the evaluator covers all declared constants, and each parser led is registered for exactly the tokens its switch handles, so no 'unrecognised operator' panic is reachable. NOT decided: the operator x kind x kind value/error table.",
+		Rule:        commonRule,
+		Fixtures:    []string{"fin", "guard", "tab"},
+		Run: func(c *Ctx, r *Result) {
+			e := newFIN(c, c.G)
+			n := runFINBoxing(c, e, r, "FIN", c.fnsNamed(r, "jsonata.evalNumericOperator", "jsonata.evalNegation", "jsonata.evalRange"))
+			r.RequireMin("FIN float boxing sites in the arithmetic evaluators", n, 3)
 			runRangeGuard(c, r, "GUARD", 10000000)
 			runCondLazy(c, r, "LAZY")
-			runCLOCK(c, r, "CLOCK")
-			runUnixNano(c, r, "GUARD-API")
-			runMARSHAL(c, r, "MARSHAL")
+			m := runEnumSwitches(c, r, "TAB", []string{"jsonata"}, map[string]bool{"NumericOperator": true, "ComparisonOperator": true, "BooleanOperator": true})
+			r.RequireMin("TAB operator enum switches in the evaluator", m, 3)
+			k := runRegistrationSwitch(c, r, "TAB")
+			r.RequireMin("TAB led/nud registration-vs-switch checks", k, 4)
+			r.Assume("numbers entering evaluation (decoded JSON, number literals) are finite; FIN shows finiteness is preserved")
 		},
 	})
-}
-
-func init() {
 	register(&propDef{
-		ID: "TABTEST", Explanation: "wip", Rule: "wip",
-		Run: func(c *Ctx, r *Result) {
-			n := runEnumSwitches(c, r, "TAB", []string{"jsonata", "jparse", "jlib", "jxpath", "jtypes"}, nil)
-			r.Note("enum switches %d", n)
-			runRegistrationSwitch(c, r, "TAB")
-			runErrMsgs(c, r, "TAB", "jparse", 27)
-			runErrMsgs(c, r, "TAB", "jsonata", 20)
-			runDateTables(c, r, "TAB")
-			runEvalDispatch(c, r, "TAB")
-			runJSONLiterals(c, r, "TAB")
-		},
-	})
-}
-
-func init() {
-	register(&propDef{
-		ID: "PRATTTEST", Explanation: "wip", Rule: "wip",
+		ID: "C04",
+		Explanation: "Extracts the complete parameter set of the Pratt parser from the current source — lexeme->token tables (symbols1, symbols2, lookupKeyword), the binding-power rows and the formula initBindingPowers applies to them, lookupBp, the single binding of the parser's lookup fields, the loop test of parseExpression, each led's recursive right-binding power, the nud/led tables, the lexeme->token->operator-constant->String() chain, and the allowRegex flag of every token consumption that is followed by an operand or by a return to the Pratt loop — and compares it with the precedence relation written in the property (10 rows, all left-associative except := and the greedy else branch). For the token set of the language these parameters determine the parse of every operator chain, so a one-row move, a flipped associativity, a <= in the loop, a swapped operator constant or a wrong regex flag is caught for all ordered pairs, not the sampled ones. NOT decided: the path/predicate/group re-association done by optimize.",
+		Rule:        commonRule,
+		Fixtures:    []string{"tab"},
 		Run: func(c *Ctx, r *Result) {
 			runPRATT(c, r, "PRATT")
+			runRegistrationSwitch(c, r, "TAB")
+		},
+	})
+	register(&propDef{
+		ID: "C10",
+		Explanation: "Decides: (SEQ) no *sequence escapes (see C01); (FIN) every float result of every function bound in the base environment (and their callees) and every float boxed into a value under Eval is finite or guarded by two-sided IsInf/IsNaN tests; (MARSHAL) every type implementing jtypes.Callable marshals as the constant \"\" through callableMarshaler, every built-in's first result type is JSON-closed, jsonata.ErrUndefined is referenced only by Expr.Eval and returned exactly on the !IsValid edge, and EvalBytes is json.Unmarshal(error checked) -> Eval(on the decoded value, error checked) -> json.Marshal(of Eval's result). NOT decided: that every nested value of every result is JSON-representable.",
+		Rule:        commonRule,
+		Fixtures:    []string{"seq", "fin", "marshal"},
+		Run: func(c *Ctx, r *Result) {
+			runSEQ(c, c.G, r, "SEQ", c.W.LibSSA["jsonata"], c.Lib, c.REval.Roots)
+			e := newFIN(c, c.G)
+			n := runFINBoxed(c, e, r, "FIN", nil)
+			r.RequireMin("FIN float-returning built-ins (success returns)", n, 12)
+			m := runFINBoxing(c, e, r, "FIN", srcFuncsIn(c.REval))
+			r.RequireMin("FIN float boxing sites under Eval", m, 3)
+			runMARSHAL(c, r, "MARSHAL")
+			r.Assume("numbers entering evaluation (decoded JSON, number literals) are finite")
+		},
+	})
+	register(&propDef{
+		ID: "C11",
+		Explanation: "Thin but genuine necessary conditions, decided by table comparison: jparse.jsonEscapes equals RFC 8259 section 7's two-character escape table exactly (no missing, changed or extra letter); true/false/null are lexed as boolean/boolean/null and parseBoolean maps each word to its own value; evalArray has an *ArrayNode case that appends a nested array literal as a unit without iterating over it. NOT decided: \\u decoding, surrogate pairing, number scanning and range errors.",
+		Rule:        commonRule,
+		Fixtures:    []string{"tab"},
+		Run: func(c *Ctx, r *Result) {
+			runJSONLiterals(c, r, "TAB")
+			r.RequireMin("TAB JSON-literal obligations", len(r.Obls), 14)
+		},
+	})
+	register(&propDef{
+		ID: "C13",
+		Explanation: "Decides: every sort call reachable from Eval is a stable variant (sort.SliceStable/sort.Stable); every comparator handed to them returns only constants, strict < / > tests, or calls that return only those (no <=, >=, ==, negation, lte) — a non-strict less function breaks stability for ties; the slice sorted in place is allocated by the same evaluation; jlib.merge calls the user comparator as swap(left head, right head) and takes the left head on a false result, so the hand-written merge sort is stable. Go's unstable sort is an insertion sort below 12 items, so none of this is visible to the suite. NOT decided: permutation/order/error clauses as values, key typing, direction per term.",
+		Rule:        commonRule,
+		Fixtures:    []string{"sort"},
+		Run: func(c *Ctx, r *Result) {
+			runSORT(c, c.G, r, "SORT", c.REval, c.Lib, 3)
+			runMERGE(c, r, "MERGE")
+		},
+	})
+	register(&propDef{
+		ID: "C15",
+		Explanation: "Thin: decides that no function under $distinct (and nothing else under Eval) uses a map with interface keys indexed by a dynamically typed value (panics on arrays/objects/functions) or an fmt.Sprint rendering as the identity of a value (conflates {\"a\":1} and {\"a\":\"1\"}); and FIN for the aggregate functions $sum/$max/$min/$average (no unguarded overflow). NOT decided: every other definitional clause (visit order, fold direction, permutation), which are value-level.",
+		Rule:        commonRule,
+		Fixtures:    []string{"hash", "fin"},
+		Run: func(c *Ctx, r *Result) {
+			d := c.mustFn(r, "jlib.Distinct")
+			if d != nil {
+				reach := c.G.Reach(d)
+				n := runHASH(c, r, "HASH", srcFuncsIn(c.REval), c.REval)
+				maps := 0
+				for _, f := range srcFuncsIn(reach) {
+					for _, ins := range instrsIn(f) {
+						switch ins.(type) {
+						case *ssa.MapUpdate, *ssa.Lookup, *ssa.MakeMap:
+							maps++
+						}
+					}
+				}
+				r.Add(Obligation{Rule: "HASH", Key: "jlib.Distinct:identity-scan", Fn: "jlib.Distinct", Pos: c.W.Pos(d.Pos()), Verdict: Discharged, Nontrivial: true,
+					Reason: "scanned the functions reachable from jlib.Distinct (" + itoa(len(reach.Set)) + ") and all of reach(Eval): " + itoa(n) + " interface-keyed map accesses, " + itoa(maps) + " map operations under Distinct; membership is decided by value comparison"})
+			}
+			e := newFIN(c, c.G)
+			k := runFINBoxed(c, e, r, "FIN", map[string]bool{"jlib.Sum": true, "jlib.Max": true, "jlib.Min": true, "jlib.Average": true})
+			r.RequireMin("FIN aggregate success returns", k, 8)
+		},
+	})
+	register(&propDef{
+		ID: "C16",
+		Explanation: "Decides: (UNIT) in Substring, Pad, positionOfNthRune and abs every integer addition, comparison, string-slice bound and positionOfNthRune argument keeps code-point counts (utf8.RuneCountInString, the built-ins' integer parameters) apart from byte offsets (len(string), strings.Index*, range keys, decode widths) — a len(s) where a rune count is meant passes every ASCII sample; (CODEC) $base64encode/$base64decode reference the same base64 encoding variable, $encodeUrlComponent/$decodeUrlComponent use a matching escape/unescape pair of net/url, and $length is bound to utf8.RuneCountInString. NOT decided: the laws as string equalities; $split/$join/$replace/$trim.",
+		Rule:        commonRule,
+		Fixtures:    []string{"unit"},
+		Run: func(c *Ctx, r *Result) {
+			runUNIT(c, r, "UNIT")
+			runCODEC(c, r, "CODEC")
+		},
+	})
+	register(&propDef{
+		ID: "C19",
+		Explanation: "Decides: (TAB) expandDateComponent's switch and defaultDateFormats cover all 17 declared date components; (CLOCK) the only clock read under Eval is time.Now in Expr.newEnv, called once per Eval outside loops, and $now and $millis embed conversions of one and the same SSA value; (GUARD-API) no nanoseconds-since-epoch API (UnixNano: defined only 1678..2262) is reachable from $toMillis; (GUARD) every integer division/modulo under $fromMillis has a dominating non-zero test of its divisor. NOT decided: calendar field values (the 12-hour clock showing 0 for the midnight hour is real and value-level), the inverse law.",
+		Rule:        commonRule,
+		Fixtures:    []string{"guard", "tab"},
+		Run: func(c *Ctx, r *Result) {
+			runDateTables(c, r, "TAB")
+			runEnumSwitches(c, r, "TAB", []string{"jxpath"}, map[string]bool{"dateComponent": true})
+			runCLOCK(c, r, "CLOCK")
+			runUnixNano(c, r, "GUARD-API")
+			fm := c.mustFn(r, "jlib.FromMillis")
+			if fm != nil {
+				reach := c.G.Reach(fm)
+				n := runGUARD(c, r, "GUARD", srcFuncsIn(reach), reach)
+				r.RequireMin("GUARD partial operations under FromMillis", n, 3)
+			}
 		},
 	})
 }
